@@ -25,6 +25,7 @@ TRUSTED_BASE = [
     "the declarations the proofs assume are re-checked by `rfl` on every run (SchemaTie/Curves.lean)",
 ]
 SCHEMA_TIE = ('Curves',)
+SQL_TIE = ('rise', 'recession')
 ASSUMPTIONS = [
     "the decision is made by the tool in floating point on what the user typed in decimal: references are swept as "
     "decimal strings k*step (exact in Decimal), the model receives the same decimals as rationals",
@@ -62,7 +63,12 @@ def run(ctx):
         # water levels near the datum, or metres below / above it (well head far from the peat surface)
         tr = P.gen_truth(rng, noise=rng.choice([0.0, 0.4]),
                          datum=(0.0 if d_i % 3 == 0 else float(rng.choice([-1, 1]) * rng.randint(900, 4000))))
-        for step_s in (STEPS if ctx.tier != "quick" else rng.sample(STEPS, 5) + ["0.1"]):
+        long_dry = d_i == 1
+        if long_dry:
+            # a long dry season: recession curve of 1e7 s (the storms must rise more than 2 mm/h per step)
+            tr = P.gen_long_truth(rng)
+            ctx.count("datasets_with_month_long_dry_spells")
+        for step_s in ((STEPS if ctx.tier != "quick" else rng.sample(STEPS, 5) + ["0.1"]) if not long_dry else rng.sample(["1", "0.5", "2.5", "5"], 2)):
             step = float(step_s)
             w = P.run_workflow(ctx, tr.rows(), tr.s, tr.j, step, keep_db=True, steps=("load", "classify", "grid"))
             if any(w["status"].get(k, ("x",))[0] != "ok" for k in ("load", "classify", "grid")):
